@@ -11,3 +11,11 @@ pub unsafe fn cs_acquire() -> critical_section::RestoreState {
 
 /// Stub for `critical_section::release`: no-op.
 pub unsafe fn cs_release(_restore_state: critical_section::RestoreState) {}
+
+extern crate alloc;
+
+/// Stub for `alloc::fmt::format` (the function behind `format!` / `to_string` on error paths): returns an empty
+/// string.  Only the *text* of error messages is abstracted; which error variant is returned is untouched.
+pub fn fmt_format_stub(_args: core::fmt::Arguments<'_>) -> alloc::string::String {
+    alloc::string::String::new()
+}
